@@ -130,13 +130,20 @@ leaf indices (`N < 2^32` leaves: the bitmap is indexed by `u32`).  In (leaf-coun
 coordinates the inner node `(n, k+1)` has the children `(n - 2^k, k)` and `(n, k)` and covers the
 leaves `n + 1 - 2^(k+1) ..= n`.  `compacted`: a position is off file only strictly inside a
 compacted subtree — if an inner node or one of its children is off file then both children are,
-and no leaf below the node is marked unspent. -/
+and no leaf below the node is marked unspent.  `data_compacted`: a leaf whose hash is off file has
+its data off file too — `PMMRBackend::get_from_file` and `get_data_from_file`
+(`store/src/pmmr.rs`) both start with `if self.is_compacted(pos0) { return None; }` and read the
+file otherwise, so below the MMR size `get_from_file(pos0) = None` means `is_compacted(pos0)`, and
+then `get_data_from_file(pos0) = None` (the converse of `data_of_file`; without it the record
+admits a view that still answers the *data* of a compacted leaf, for which `from_pmmr` does not
+take its "fully pruned segment" branch and fails: `Lemmas/SegFupViews.lean`, `keepData_fails`). -/
 structure PrunedView (hf : HashFn α H) (f : Nat → α) (N : Nat) (b : Nat → Bool) (V : View α H) : Prop where
   size : V.size = mmr N
   small : N < 2 ^ 32
   file_genuine : ∀ q h, q < mmr N → V.fromFile q = some h → h = hAt hf f q
   data_genuine : ∀ q d, q < mmr N → height q = 0 → V.dataFromFile q = some d → d = dAt f q
   data_of_file : ∀ q, q < mmr N → height q = 0 → V.dataFromFile q = none → V.fromFile q = none
+  data_compacted : ∀ q, q < mmr N → height q = 0 → V.fromFile q = none → V.dataFromFile q = none
   hash_inner : ∀ q, q < mmr N → height q ≠ 0 → V.hash q = V.fromFile q
   peaks_on_file : ∀ p ∈ peaks (mmr N), V.fromFile p ≠ none
   compacted : ∀ n k, k + 1 ≤ trailingOnes n → n < N →
@@ -824,6 +831,7 @@ theorem prunedView_of_all_on_file (V : View α H) (b : Nat → Bool) (hN : N < 2
   data_genuine := fun q d hq hl hx => by
     rw [hdata q hq hl] at hx; injection hx with hx; exact hx.symm
   data_of_file := fun q hq hl hd => by rw [hdata q hq hl] at hd; cases hd
+  data_compacted := fun q hq _ hx => by rw [hfile q hq] at hx; cases hx
   hash_inner := hinner
   peaks_on_file := fun p hp => by rw [hfile p (Co.peaks_lt_size hp)]; simp
   compacted := by
@@ -875,7 +883,7 @@ theorem prunedView_compactPair (V : View α H) (b : Nat → Bool) (hN : N < 2 ^ 
       exact ⟨this.2, Or.inr this.1⟩
   refine
     { size := hsize, small := hN, file_genuine := ?_, data_genuine := ?_, data_of_file := ?_,
-      hash_inner := ?_, peaks_on_file := ?_, compacted := ?_ }
+      data_compacted := ?_, hash_inner := ?_, peaks_on_file := ?_, compacted := ?_ }
   · intro q h hq hx
     simp only [compactPair] at hx
     split at hx
@@ -892,6 +900,11 @@ theorem prunedView_compactPair (V : View α H) (b : Nat → Bool) (hN : N < 2 ^ 
     · rfl
     · rename_i hc
       rw [if_neg hc, hdata q hq hl] at hd; cases hd
+  · intro q hq _ hx
+    simp only [compactPair] at hx ⊢
+    split at hx
+    · rename_i hc; rw [if_pos hc]
+    · rw [hfile q hq] at hx; cases hx
   · intro q hq hh
     have hc : ¬ (q = mmr (n0 - 1) ∨ q = mmr n0) := fun hc => hh (hleaf q hc)
     simp only [compactPair, if_neg hc]
